@@ -1247,7 +1247,15 @@ class RpcServer:
                         # Resolve SHM pointer on input batch
                         input_batch, resolved_cm, release_fn = resolve_shm_batch(input_batch, resolved_cm, shm)
 
-                        input_batch = _coerce_input_batch(input_batch, input_schema)
+                        try:
+                            input_batch = _coerce_input_batch(input_batch, input_schema)
+                        except Exception:
+                            # A rejected input was still consumed: give its
+                            # shared-memory region back before reporting the
+                            # error, or it stays allocated for good.
+                            if release_fn is not None:
+                                release_fn()
+                            raise
 
                         ab_in = AnnotatedBatch(batch=input_batch, custom_metadata=resolved_cm, _release_fn=release_fn)
                         if prev_input is not None:
